@@ -247,7 +247,7 @@ FamExtreme(X) ==
 (***************************************************************************)
 (* Finish: resolve the draft to concrete numbers; {} when it cannot exist.  *)
 (***************************************************************************)
-NoSeq == [on |-> FALSE, req1 |-> [feerate |-> Z, to_b |-> Z, to_c |-> Z, off |-> << >>, rcv |-> << >>],
+NoSeq == [on |-> FALSE, adv |-> FALSE, req1 |-> [feerate |-> Z, to_b |-> Z, to_c |-> Z, off |-> << >>, rcv |-> << >>],
           chain2 |-> [h0 |-> 0, blocks |-> 0, fund_at |-> 0, close_at |-> 0]]
 ReqOf(side, feerate, hv, cv, offh, rcvh) ==
   IF side = "holder"
@@ -368,7 +368,7 @@ SeqVariants(X) ==
     ELSE {NoPatch, Main("cv", AI(210000)), Main("cv", AI(CHAN_DUST - 1)),
           Patch1("rcvh=other", "rcvh", << HT(AI(31000), CR(RelOK(X.pol))) >>)}
 SeqCasesOf(X) ==
-  UNION { UNION { { [c2 EXCEPT !.kind = "seq", !.seq = [on |-> TRUE, req1 |-> c1.req, chain2 |-> ch2]]
+  UNION { UNION { { [c2 EXCEPT !.kind = "seq", !.seq = [on |-> TRUE, adv |-> FALSE, req1 |-> c1.req, chain2 |-> ch2]]
                     : c2 \in Finish(X, Apply(SeqBase(X), p), "seq",
                                     "n=" \o ToString(X.n) \o "," \o ToString(ch2.blocks) \o "/" \o ToString(ch2.fund_at)
                                       \o "/" \o ToString(ch2.close_at) \o "," \o p.why) }
@@ -379,7 +379,33 @@ SeqCtx == {Ctx(pol, ct, TRUE, PUSH0, V0, SeqChain1, side, n)
                ct \in (IF Thorough THEN CTypes ELSE {"static"}), side \in Sides, n \in {0, 1, 2}}
 SeqCases == UNION {SeqCasesOf(X) : X \in {Y \in SeqCtx : ~(Y.side = "cp" /\ Y.n = 2)}}
 
-Cases0 == StdCases \cup InitCases \cup SizeCases \cup ChainCases \cup ExtCases \cup ManyCases \cup SeqCases
+\* two successive commitments: number 1 is accepted and becomes current (the holder revokes
+\* commitment 0 / the counterparty's revocation of 0 is validated), then number 2 CARRIES THE SAME
+\* HTLC (value, hash, expiry) at another claimed fee rate, so that the HTLC crosses the trim
+\* threshold between the two commitments (both directions), or keeps its side of it (controls);
+\* a third variant changes the expiry, i.e. presents a new HTLC.  The reference judges number 2
+\* on its own contents only.
+AdvRates == {<<N(1000), N(2000)>>, <<N(2000), N(1000)>>, <<N(253), N(25000)>>}
+           \cup (IF Thorough THEN {<<Z, N(3000)>>, <<N(25000), N(253)>>, <<N(1000), N(1001)>>} ELSE {})
+AdvCasesOf(X) ==
+  UNION { LET hi   == IF Gt(fr[1], fr[2]) THEN fr[1] ELSE fr[2]
+              dir  == IF (who = "offh") = (X.side = "holder") THEN "off" ELSE "rcv"
+              v    == AddI(HtlcDust(X.ctype, dir, hi), d)          \* around the threshold at the higher rate
+              c    == CR(RelOK(X.pol))
+              D1   == [BaseD(X) EXCEPT !.feerate = fr[1], ![who] = << HT(A(v), c) >>]
+              D2   == [D1 EXCEPT !.feerate = fr[2], ![who] = << HT(A(v), IF same THEN c ELSE CR(RelOK(X.pol) + 1)) >>]
+              why  == who \o ",v=thr(" \o BigL(hi) \o ")" \o ToString(d) \o ",rate " \o BigL(fr[1]) \o "->" \o BigL(fr[2])
+                        \o (IF same THEN ",carried" ELSE ",new-expiry") IN
+          UNION { { [c2 EXCEPT !.kind = "seq", !.seq = [on |-> TRUE, adv |-> TRUE, req1 |-> c1.req, chain2 |-> X.chain]]
+                    : c2 \in Finish(X, D2, "adv", why) }
+                  : c1 \in Finish(X, D1, "adv", "first") }
+          : fr \in AdvRates, who \in {"offh", "rcvh"}, d \in {-1, 0}, same \in BOOLEAN }
+AdvCtx == {Ctx(pol, ct, TRUE, PUSH0, V0, ChainOK, side, 2)
+             : pol \in {BasePol, PolOn} \cup (IF Thorough THEN {PolUse} ELSE {}),
+               ct \in (IF Thorough THEN CTypes ELSE {"static"}), side \in Sides}
+AdvCases == UNION {AdvCasesOf(X) : X \in AdvCtx}
+
+Cases0 == AdvCases \cup StdCases \cup InitCases \cup SizeCases \cup ChainCases \cup ExtCases \cup ManyCases \cup SeqCases
 
 (***************************************************************************)
 (* Filters: for one representative of every class (set of broken rules,     *)
@@ -463,7 +489,7 @@ Spec == Init /\ [][Next]_<<ci, st, bad, last>>
 View == <<ci, st, bad>>
 
 C05 == Inv_C05(bad)
-TypeOK == /\ st.ph \in Phases /\ st.nh \in 0..1 /\ bad \subseteq (CommitRules \cup SetupRules)
+TypeOK == /\ st.ph \in Phases /\ st.nh \in 0..2 /\ bad \subseteq (CommitRules \cup SetupRules)
 \* vacuity guards of the matrix itself: every rule is the sole broken rule of some case under a
 \* strict filter, and there are cases that break nothing
 MatrixStats ==
